@@ -296,7 +296,8 @@ def merge_and_report(mod, tier, seed, partials, wall_s, replaying=False):
 
     known = KnownFindings()
     # anchored functions must have been reached
-    unreached = [a for a in getattr(mod, "ANCHORS", []) if reach.get(a, 0) == 0]
+    unresolved = [a for a in getattr(mod, "ANCHORS", []) if a not in reach]
+    unreached = [a for a in getattr(mod, "ANCHORS", []) if a in reach and reach[a] == 0]
     if unreached and not replaying:
         inconclusive.append(f"anchored functions never executed: {unreached}")
     min_eval = getattr(mod, "MIN_EVALUATIONS", {"quick": 5, "thorough": 5})[tier]
@@ -332,6 +333,7 @@ def merge_and_report(mod, tier, seed, partials, wall_s, replaying=False):
         "samples": samples or [{"note": "no sample recorded"}],
         "monitor_counters": dict(sorted(counters.items())),
         "anchored_function_hits": dict(sorted(reach.items())),
+        "anchored_functions_not_found_by_name": unresolved,
         "known_finding_hits": dict(known_hits),
         "shards": len(partials),
         "exhaustive": False,
